@@ -15,7 +15,6 @@ import (
 	"testing/synctest"
 	"time"
 
-	"github.com/semihalev/sdns/config"
 	"github.com/semihalev/sdns/internal/vfgen"
 	"github.com/semihalev/sdns/internal/vfstat"
 	"github.com/semihalev/sdns/middleware/cache"
@@ -28,28 +27,6 @@ type vfC05Step struct {
 	Raw    []byte
 	Proto  string
 	Client int
-}
-
-type vfC05Params struct {
-	Cookie, NSID, Chaos bool
-	ClientRate          int
-	EntryRate           int
-	RFC8198, RFC9520    bool
-}
-
-func vfC05Config(dir string, p vfC05Params) *config.Config {
-	cfg := vfBaseConfig(dir)
-	if p.Cookie {
-		cfg.CookieSecret = "6c6f6f6b61686172646c6f6f6b6168617264"
-	}
-	if p.NSID {
-		cfg.NSID = "vf-nsid"
-	}
-	cfg.Chaos = p.Chaos
-	cfg.ClientRateLimit = p.ClientRate
-	cfg.RateLimit = p.EntryRate
-	cfg.EmptyZones = []string{"10.in-addr.arpa."}
-	return cfg
 }
 
 // vfC05Run executes the history with the given ingress and returns the transcript.
